@@ -56,7 +56,8 @@ def _process_vlandb(rule, key, diff, multi, multi_all, multi_chunk):  # pylint: 
             assert 0 <= len(diff[op]) <= 1, "Too many actions: %r" % (diff)
 
     if diff[Op.REMOVED] and not diff[Op.ADDED]:  # Removed
-        if multi and multi_all:
+        if multi and multi_all and not diff[Op.UNCHANGED]:
+            # "undo ... all" is correct only if no line of this list stays in place
             yield (False, rule["reverse"].format(*key) + " all", None)
             return
         elif not multi and not multi_all:
